@@ -323,3 +323,68 @@ def variant_flags(b, field):
         if ok and m[True] and m[False] and not (m[True] & m[False]):
             out[l] = m
     return out
+
+
+def bool_fn_table(b, atoms):
+    """Truth table of a small boolean function, read off its control-flow graph.
+    atoms: {name: (constraint(value) -> [(switch list, label)], resolver)} where resolver(v) says whether a
+    def-use value IS this atom (then a result `_0 = atom` takes the atom's assigned value).
+    Returns {assignment tuple (in sorted-name order): set of possible results (True/False/'?')}."""
+    import itertools
+    names = sorted(atoms)
+    table = {}
+    for combo in itertools.product((True, False), repeat=len(names)):
+        asg = dict(zip(names, combo))
+        cons = []
+        for n in names:
+            cons += atoms[n][0](asg[n])
+        r = b.reach_under(cons, [0])
+        res = set()
+
+        def value_of(v, depth=0):
+            neg = False
+            while v.kind == 'un' and v.key[0] == 'Not':
+                v = v.key[1]
+                neg = not neg
+            if v.kind == 'const' and v.key in (0, 1):
+                return bool(v.key) != neg
+            for n in names:
+                if atoms[n][1](v):
+                    return asg[n] != neg
+            return '?'
+        from mir import V
+
+        def local_results(l, depth=0):
+            """possible values of local l, looking only at the definitions that can execute under this assignment"""
+            out = set()
+            if depth > 8:
+                return {'?'}
+            ds = [d for d in b.defs.get(l, []) if (d[1] == 'call' or not d[2]['lhs']['p']) and d[0] in r]
+            if not ds:
+                return {'?'}
+            for (bb, si, st) in ds:
+                if si == 'call':
+                    out.add(value_of(V('call', bb)))
+                    continue
+                rv = st['rv']
+                if rv['k'] == 'use':
+                    o = rv['op']
+                    v = value_of(b.val(o))
+                    if v == '?' and o.get('k') in ('copy', 'move') and not o['place']['p']:
+                        out |= local_results(o['place']['l'], depth + 1)
+                    else:
+                        out.add(v)
+                elif rv['k'] == 'un' and rv.get('op') == 'Not':
+                    o = rv['a']
+                    v = value_of(b.val(o))
+                    vs = {v}
+                    if v == '?' and o.get('k') in ('copy', 'move') and not o['place']['p']:
+                        vs = local_results(o['place']['l'], depth + 1)
+                    out |= set((not x) if x != '?' else '?' for x in vs)
+                elif rv['k'] == 'bin':
+                    out.add(value_of(V('bin', (rv['op'], b.val(rv['a']), b.val(rv['b'])))))
+                else:
+                    out.add('?')
+            return out
+        table[combo] = local_results(0)
+    return names, table
